@@ -97,7 +97,7 @@ def run_defs(spec, acc):
     # short payloads first: they are where framing goes wrong
     defs.sort(key=lambda d: (d.length if d.length is not None else 99, d.index))
     defs = [d for k, d in enumerate(defs) if k % spec["n"] == spec["i"]]
-    n_payloads = 12 if quick else 60
+    n_payloads = 12 if quick else 600
     addressing = [(0, 0, 255), (7, 255, 0), (3, 17, 239), (6, 253, 254)]
     for d in defs:
         nb = d.length if d.length is not None else (d.total_bits() + 7) // 8
@@ -177,7 +177,7 @@ def run_corrupt(spec, acc):
     quick = spec["tier"] == "quick"
     enc, dec, src_dec = NMEA2000Encoder(), NMEA2000Decoder(), NMEA2000Decoder()
     defs = [d for d in dbx.defs if d.encodable and d.type == "Single" and (d.length or 8) <= 8]
-    n_packets = 5 if quick else 125
+    n_packets = 5 if quick else 500
     done = 0
     while done < n_packets:
         d = rng.choice(defs)
